@@ -1,6 +1,9 @@
 import CanvasProofs.Lemmas.C10
 import CanvasProofs.Lemmas.C10Decode
 import CanvasProofs.Lemmas.C10Exact
+import CanvasProofs.Lemmas.C10Derive
+import CanvasProofs.Lemmas.C10Heap
+import CanvasModel.C10
 /-!
 # C10 — built paths are well-formed
 
@@ -356,5 +359,182 @@ theorem arc_canonical (G : Geo α) (start p : Pt α) (rx ry rot : α) :
     by_cases h2 : G.lt (G.abs rx) (G.abs ry) = true
     · rw [if_pos h2]; exact ⟨_, _, _, Or.inr ⟨rfl, rfl⟩, key (G.abs ry, G.abs rx, G.rotPlus90 rot)⟩
     · rw [if_neg h2]; exact ⟨_, _, _, Or.inl ⟨rfl, rfl⟩, key (G.abs rx, G.abs ry, rot)⟩
+
+/-! ## 6. Derivers: Split, Reverse, Transform, replace -/
+
+/-- Every path returned by `Split` is well-formed. -/
+theorem split_wf (near : Pt α → Pt α → Bool) (cs : RPath α) (h : WF near cs) : ∀ p ∈ split cs, WF near p := by
+  intro p hp
+  obtain ⟨st, hst⟩ := Option.isSome_iff_exists.1 h
+  obtain ⟨s, hs⟩ := (splitRuns_state near hst).1 p (split_subset cs p hp)
+  exact Option.isSome_iff_exists.2 ⟨s, hs⟩
+
+/-- `Split` partitions the records: the pieces, in array order, concatenate back to the path, except
+that a last piece of at most four values (a trailing lone MoveTo) is left out. -/
+theorem split_partition (cs : RPath α) :
+    ∃ dropped : List (RPath α), (dropped = [] ∨ ∃ r, dropped = [r] ∧ isEmpty r = true) ∧
+      (dropped ++ (split cs).reverse).flatten = cs := by
+  have hf := splitRuns_flatten cs
+  unfold split
+  cases h : splitRuns cs with
+  | nil => rw [h] at hf; exact ⟨[], Or.inl rfl, by simpa using hf⟩
+  | cons p ps =>
+    rw [h] at hf
+    simp only
+    by_cases he : isEmpty p = true
+    · rw [if_pos he]; exact ⟨[p], Or.inr ⟨p, rfl, he⟩, by simpa using hf⟩
+    · rw [if_neg he]; exact ⟨[], Or.inl rfl, by simpa using hf⟩
+
+/-- `Reverse` returns a well-formed path for EVERY input (no hypothesis): the pending Close is emitted
+exactly when the first LineTo of a closed subpath is reached, so nothing but a MoveTo follows a Close,
+and every Close carries the first point written for its subpath. -/
+theorem reverse_wf (G : Geo α) (near : Pt α → Pt α → Bool) (cs : RPath α) : WF near (reverse G cs) := by
+  apply Option.isSome_iff_exists.2
+  unfold reverse
+  cases cs with
+  | nil => exact ⟨_, rfl⟩
+  | cons c rest =>
+    apply revGo_ok
+    left; left
+    simp [endState, step]
+
+/-- `Reverse` keeps the number of subpaths of a well-formed path. -/
+theorem reverse_subpaths (G : Geo α) (near : Pt α → Pt α → Bool) (cs : RPath α) (h : WF near cs) :
+    countMoves (reverse G cs) = countMoves cs := by
+  have hold : ∀ cs : RPath α, (∃ st, endState near false cs = some st) → cs ≠ [] → oldestMove cs = 1 := by
+    intro cs
+    induction cs with
+    | nil => intro _ hne; exact absurd rfl hne
+    | cons c rest ih =>
+      intro ⟨st, hst⟩ _
+      obtain ⟨st0, h0, hs⟩ := endState_cons_some near false hst
+      cases rest with
+      | nil =>
+        simp [endState] at h0; subst h0
+        rcases cmd_trichotomy c with ⟨p, rfl⟩ | ⟨p, rfl⟩ | hc
+        · simp [oldestMove, Cmd.isMove]
+        · rw [step_close_iff] at hs; obtain ⟨_, s, hs', _⟩ := hs; rcases hs' with hs' | ⟨hs', _⟩ <;> simp at hs'
+        · rw [step_draw_iff near false hc] at hs; obtain ⟨s, hs', _⟩ := hs; simp at hs'
+      | cons d t => rw [oldestMove_cons]; exact ih ⟨st0, h0⟩ (by simp)
+  unfold reverse
+  cases cs with
+  | nil => rfl
+  | cons c rest =>
+    have h1 := revGo_moves G (c :: rest) false c.endp c.endp [.move c.endp]
+    have h2 := hold (c :: rest) (Option.isSome_iff_exists.1 h) (by simp)
+    rw [h2, countMoves_move] at h1
+    simp only [countMoves] at h1 ⊢
+    omega
+
+/-- `Transform` with a matrix that keeps arcs arcs (in particular `Translate`, `Scale`) maps every
+point through `f`: the result is well-formed (also strictly) whenever `f` respects the closing tolerance. -/
+theorem transform_wf (near near' : Pt α → Pt α → Bool) (f : Pt α → Pt α)
+    (g : α × α × α × Bool × Bool → α × α × α × Bool × Bool)
+    (hn : ∀ a b, near a b = true → near' (f a) (f b) = true) (cs : RPath α) :
+    (WF near cs → WF near' (cs.map (mapCmd f g))) ∧ (Strict near cs → Strict near' (cs.map (mapCmd f g))) := by
+  constructor
+  · intro h
+    obtain ⟨st, hst⟩ := Option.isSome_iff_exists.1 h
+    exact Option.isSome_iff_exists.2 ⟨_, map_state near f g near' hn false hst⟩
+  · intro h
+    obtain ⟨st, hst⟩ := Option.isSome_iff_exists.1 h
+    exact Option.isSome_iff_exists.2 ⟨_, map_state near f g near' hn true hst⟩
+
+/-- the hypothesis of `transform_wf` holds for a translation in exact arithmetic -/
+example : ∀ a b : Pt Int, goGeo.ptEq a b = true →
+    goGeo.ptEq (⟨a.x + 3, a.y - 2⟩ : Pt Int) ⟨b.x + 3, b.y - 2⟩ = true := by
+  intro a b h; rw [goGeo_ptEq] at h ⊢; subst h; rfl
+
+/-- `replace` with callbacks that replace nothing returns the path unchanged. -/
+theorem replace_none (G : Geo α) (cs : RPath α) : replace G (fun _ _ => none) cs = cs := by
+  have key : ∀ (n : Nat) (acc : RPath α) (todo : List (Cmd α)),
+      replaceGo G (fun _ _ => none) n acc todo = todo.reverse ++ acc := by
+    intro n
+    induction n with
+    | zero => intro acc todo; rfl
+    | succ n ih =>
+      intro acc todo
+      cases todo with
+      | nil => rfl
+      | cons c rest =>
+        simp only [replaceGo]
+        split <;> rw [ih] <;> simp
+  unfold replace
+  rw [key]; simp
+
+/-- A raw data array is accepted by the executable verdict `wfArray` (the `W` lines of the check)
+exactly when it is the encoding of a well-formed command list — hence, by `wf_iff_framed`, exactly when
+it is framed: first record a MoveTo, only a MoveTo after a Close, every Close at its own subpath's start. -/
+theorem wfArray_iff (C : Codes α) (hC : C.Distinct) (near : Pt α → Pt α → Bool) (d : List α) :
+    wfArray C near d = true ↔ ∃ cs, encode C cs = d ∧ WF near cs := by
+  unfold wfArray
+  constructor
+  · intro h
+    cases hd : decode C d with
+    | none => simp [hd] at h
+    | some recs =>
+      simp only [hd] at h
+      exact ⟨recs.reverse, decode_sound C hd, h⟩
+  · rintro ⟨cs, rfl, h⟩
+    rw [decode_encode' C hC]
+    simp only [List.reverse_reverse]
+    exact h
+
+/-- the instance the driver runs: IEEE bit patterns of the command and flag values are distinct -/
+example : Canvas.C10.bitsCodes.Distinct := by unfold Codes.Distinct; decide
+
+/-! ## 7. Purity and aliasing over an explicit heap of cells -/
+
+open Canvas.Heap in
+/-- Appending to a capacity-limited view (`p.d[i:j:j]`, as `Split` and `replace` hand out) allocates:
+no cell that existed before is written, so the parent array — and every other slice — reads the same
+afterwards; the result lives in fresh cells and reads `old ++ vs`. -/
+theorem view_append_pure (h : Heap α) (parent other : Slice) (i j : Nat) (vs : List α) (hv : vs ≠ [])
+    (hp : parent.Allocated h) (ho : other.Allocated h) (hij : i ≤ j ∧ j ≤ parent.len) :
+    let r := appendGo h (parent.sub3 i j j) vs
+    read r.1 parent = read h parent ∧ read r.1 other = read h other ∧ r.2.base = h.next ∧
+      read r.1 r.2 = read h (parent.sub3 i j j) ++ vs := by
+  have hfull : ¬ (parent.sub3 i j j).len + vs.length ≤ (parent.sub3 i j j).cap := by
+    have : 0 < vs.length := List.length_pos_iff.2 hv
+    simp only [Slice.sub3]; omega
+  have hview : (parent.sub3 i j j).Allocated h := by
+    obtain ⟨h1, h2⟩ := hp
+    simp only [Slice.sub3, Slice.Allocated]; constructor <;> omega
+  refine ⟨?_, ?_, append_realloc_base h _ vs hfull, append_read h _ vs hview⟩
+  · apply read_eq_of_cells
+    intro x _ hx2
+    exact append_realloc_cells h _ vs hfull x (by obtain ⟨h1, h2⟩ := hp; omega)
+  · apply read_eq_of_cells
+    intro x _ hx2
+    exact append_realloc_cells h _ vs hfull x (by obtain ⟨h1, h2⟩ := ho; omega)
+
+open Canvas.Heap in
+/-- `Copy` (make + copy): the result reads the same values, occupies fresh cells only, and no existing
+cell changes — result and argument share no cell and the argument is unchanged. -/
+theorem copy_fresh (h : Heap α) (s other : Slice) (ho : other.Allocated h) :
+    let r := copyGo h s
+    read r.1 r.2 = read h s ∧ h.next ≤ r.2.base ∧ read r.1 other = read h other := by
+  refine ⟨copy_read h s, Nat.le_refl _, ?_⟩
+  apply read_eq_of_cells
+  intro x _ hx2
+  exact copy_cells h s x (by obtain ⟨h1, h2⟩ := ho; omega)
+
+open Canvas.Heap in
+/-- Why the capacity limit matters (the mechanism of seeded defect split-shared-capacity, NOT the
+current code): a plain view `p.d[i:j]` of a non-last piece has spare capacity over the parent's next
+record, and `append` then overwrites the parent's cell `j`. -/
+theorem plain_view_append_clobbers (h : Heap α) (parent : Slice) (i j : Nat) (v : α) (vs : List α)
+    (hij : i ≤ j) (hroom : j + (v :: vs).length ≤ parent.cap) :
+    (appendGo h (parent.sub2 i j) (v :: vs)).1.cells (parent.base + j) = v := by
+  have hfit : (parent.sub2 i j).len + (v :: vs).length ≤ (parent.sub2 i j).cap := by
+    simp only [Slice.sub2] at *; omega
+  have := append_inplace_writes h (parent.sub2 i j) v vs hfit
+  have e : (parent.sub2 i j).base + (parent.sub2 i j).len = parent.base + j := by
+    simp only [Slice.sub2]; omega
+  rwa [e] at this
+
+/-- the hypotheses of `view_append_pure` are satisfiable -/
+example : (⟨0, 8, 8⟩ : Canvas.Heap.Slice).Allocated (⟨fun _ => (0 : Int), 8⟩ : Canvas.Heap.Heap Int) ∧ (0 ≤ 4 ∧ 4 ≤ 8) := by
+  simp [Canvas.Heap.Slice.Allocated]
 
 end C10
